@@ -101,6 +101,24 @@ def check_shared_writes(ctx, r, cg, tag, tag_param):
                     ctx.note(f"suppressed shared write {s.root_name} in {q}: {sup['reason']}")
                     ctx.ok(tag, q, f"suppressed (named): {s.root_name}: {sup['reason']}")
                     continue
+                if s.kind in ("modvar", "global", "class"):
+                    # a keyed table: `M[key] = value`.  A memo whose value is a function of its key alone changes no verdict and
+                    # is the same whichever thread fills it; one keyed by a rendering, or holding something that depends on the
+                    # binding context, is the violation; anything else cannot be told apart statically
+                    from ._memo import classify_keyed_store, keyed_store_parts
+
+                    parts = keyed_store_parts(f, s.node)
+                    if parts is not None and not isinstance(parts[1], ast.Constant):
+                        verdict, why = classify_keyed_store(m, r, f, parts[1], parts[2], container=parts[0])
+                        if verdict == "pure":
+                            ctx.ok(tag, q, f"`{s.root_name}[{short(parts[1], 40)}] = ...` is a memo of a pure function of its key (parameters, constants, side-effect-free calls only)")
+                            continue
+                        if verdict == "unknown":
+                            raise AnalysisError(f"{tag}: check-time code fills the shared table `{s.root_name}` in {q}; whether the entry is a pure function of its key cannot be "
+                                                f"decided ({why})")
+                        ctx.bad(tag, f, s.node, f"check-time code fills the shared table `{s.root_name}` with an entry that is not a function of its key alone ({why}): "
+                                "what one check (or thread) stores is what another one gets; reachable from a check entry point via " + " -> ".join(cg.chain(pred, q)[-5:]))
+                        continue
                 ctx.bad(tag, f, s.node,
                         f"check-time code writes shared state: {s.how} on `{s.root_name}"
                         f"{'.' + s.attr if s.attr else ''}` ({s.kind}); reachable from a check entry point via "
@@ -171,9 +189,31 @@ def check_no_memo_tables(ctx, r, cg, tag):
                    "(immutable, built by jaxtyping): a pure function of its key")
             continue
         if f.qualname in pred:
-            ctx.bad(tag, f, f.node, f"`{cached}` on a function reachable from a check entry point "
-                    f"({' -> '.join(cg.chain(pred, f.qualname)[-4:])}): a process-wide table is read and written at check time",
-                    construct=f"@{cached} def {f.name}")
+            # memoising a function of run-time values: wrong when the result depends on the binding context / thread-local
+            # state (one thread's verdict is handed to another); harmless when it is a pure function of hashable
+            # arguments -- which cannot be established here (purity of callees, hashability of what is passed)
+            from ._memo import classify_keyed_store
+
+            rets = [x.value for x in ast.walk(f.node) if isinstance(x, ast.Return) and x.value is not None]
+            verdicts = [classify_keyed_store(m, r, f, None, v) for v in rets]
+            ctxdep = [w for k_, w in verdicts if k_ == "context"]
+            writes = [s_ for s_ in Effects(m, r).stores(f) if s_.kind in ("modvar", "global", "class", "param")]
+            rend = None
+            if not (ctxdep or writes):
+                from ._memo import returns_rendering_of_param
+
+                rend = returns_rendering_of_param(f)
+            if rend is not None:
+                ctx.bad(tag, f, f.node, f"`{cached}` on a function reachable from a check entry point ({' -> '.join(cg.chain(pred, f.qualname)[-4:])}) that returns a rendering "
+                        f"of its argument (`{rend[1]}`): the table is keyed by `==` of `{rend[0]}`, and equal arguments need not share that rendering (np.dtype(np.longlong) == "
+                        "np.dtype(np.int64), different names), so the first one seen fixes the answer for all of them", construct=f"@{cached} def {f.name}: returns {rend[1]}")
+            elif ctxdep or writes:
+                why = ctxdep[0] if ctxdep else f"it writes `{writes[0].root_name}`"
+                ctx.bad(tag, f, f.node, f"`{cached}` on a function reachable from a check entry point "
+                        f"({' -> '.join(cg.chain(pred, f.qualname)[-4:])}) whose result is not a function of its arguments alone ({why}): a process-wide table hands "
+                        "one check's (thread's) result to another", construct=f"@{cached} def {f.name}")
+            else:
+                raise AnalysisError(f"{tag}: `{cached}` on {f.qualname}, which runs at check time: whether it is a pure function of hashable arguments cannot be decided")
         else:
             ctx.ok(tag, f.qualname, f"`{cached}` table is used at annotation-construction / import time only (not reachable from checks)")
     ctx.counters["memoised_functions"] = n
